@@ -1161,7 +1161,7 @@ fn main() {
     if want("solver") {
         let params = instance_params(tier);
         ctx.extra("solver_parameters", json!(params.iter().map(|(w, n, k)| json!({"n": n, "k": k, "weight": w})).collect::<Vec<_>>()));
-        let cases = tier.pick(640, 20_000);
+        let cases = tier.pick(2_000, 20_000);
         ctx.run_prop_with("solver-instances", move || arb_instance(params.clone()), cases, 4, check_instance);
         ctx.require_label_fraction("solver-instances", "has-near-miss", 0.5);
         ctx.require_label_fraction("solver-instances", "has-replacement", 0.5);
